@@ -32,7 +32,7 @@ func (c03) RequiredBuckets(tier string) []string {
 			out = append(out, op+"|rel:"+a)
 		}
 	}
-	out = append(out, "Slice|wrap", "Slice|negative", "Slice|forward", "Slice|refs", "Slice|source-feature", "Slice|host:genbank")
+	out = append(out, "Slice|wrap", "Slice|negative", "Slice|forward", "Slice|refs", "Slice|of-a-slice", "Slice|source-feature", "Slice|host:genbank")
 	return out
 }
 func (c03) Findings() []fw.Finding {
@@ -91,6 +91,7 @@ type delCase struct {
 	a, b     int // Delete/Erase: offset,length; Slice: start,end as passed
 	refs     []seqio.Reference
 	topo     gts.Topology
+	region   *gts.Segment // the record is itself a slice (Fields.Region already set)
 }
 
 func (k *delCase) enc() string {
@@ -99,6 +100,9 @@ func (k *delCase) enc() string {
 		s += fmt.Sprintf("%s %s %v;", f.Key, model.SafeString(f.Loc), f.Props)
 	}
 	s += "]"
+	if k.region != nil {
+		s += fmt.Sprintf(" region=%v", *k.region)
+	}
 	if len(k.refs) > 0 {
 		s += " refs=["
 		for _, r := range k.refs {
@@ -114,8 +118,12 @@ func (k *delCase) host() gts.Sequence {
 	bb := append([]byte(nil), k.hostB...)
 	if k.hostKind == "genbank" {
 		refs := append([]seqio.Reference(nil), k.refs...)
-		return seqio.GenBank{Fields: seqio.GenBankFields{LocusName: "H", Molecule: gts.DNA, Topology: k.topo,
-			Date: seqio.Date{Year: 2020, Month: 1, Day: 1}, References: refs}, Table: t, Origin: seqio.NewOrigin(bb)}
+		f := seqio.GenBankFields{LocusName: "H", Molecule: gts.DNA, Topology: k.topo,
+			Date: seqio.Date{Year: 2020, Month: 1, Day: 1}, References: refs}
+		if k.region != nil {
+			f.Region = *k.region
+		}
+		return seqio.GenBank{Fields: f, Table: t, Origin: seqio.NewOrigin(bb)}
 	}
 	return gts.New(nil, t, bb)
 }
@@ -354,6 +362,9 @@ func (m c03) check(c *fw.Ctx, k *delCase) {
 			c.Violate("Slice:not-linear", enc, "linear", gbf.Topology.String())
 			return
 		}
+		if k.region != nil {
+			c.Bucket("Slice|of-a-slice")
+		}
 		if len(k.refs) > 0 {
 			c.Bucket("Slice|refs")
 			m.checkRefs(c, k, enc, gbf.References, s, e, wrap, L)
@@ -584,6 +595,10 @@ func (m c03) Run(c *fw.Ctx) {
 			k.refs = randRefs(r, L)
 			if r.Intn(2) == 0 {
 				k.topo = gts.Circular
+			}
+			if r.Intn(3) == 0 {
+				h := 1 + r.Intn(500)
+				k.region = &gts.Segment{h, h + L}
 			}
 		}
 		switch r.Intn(3) {
